@@ -232,6 +232,11 @@ def pass_position(u: Unit):
         for fn in list(mi.functions.values()):
             for call in find_calls(fn.node, "load_cropped_and_aligned_image"):
                 n_calls += 1
+                # positional arguments are bound by the CALLEE's parameter order (a call written positionally is the same call)
+                callee = u.world.function("pyxel/util/image.py::load_cropped_and_aligned_image")
+                pnames = [a.arg for a in callee.node.args.posonlyargs + callee.node.args.args]
+                call = ast.Call(func=call.func, args=[], keywords=[ast.keyword(arg=pnames[i], value=a) for i, a in enumerate(call.args) if i < len(pnames)] + list(call.keywords),
+                                lineno=call.lineno, col_offset=call.col_offset)
                 u.functions.setdefault(fn.qualname, {"sha": fn.sha, "file_sha": mi.sha, "paths": 0, "obligations": 0, "role": "under contract"})
                 kw = {k.arg: ast.unparse(k.value) for k in call.keywords}
                 params = [a.arg for a in fn.node.args.args + fn.node.args.kwonlyargs]
